@@ -30,6 +30,30 @@ pub trait Corp: CandidType + for<'de> Deserialize<'de> + Sized + 'static {
     fn data_size_of(_v: &IDLValue) -> usize {
         0
     }
+    /// which serde entry points this type's `Deserialize` drives: a term of the grammar `RTy` of the native decoder
+    /// mirror (lean/CandidModel/Native.lean); named (possibly recursive) types are collected in `defs`
+    fn rdesc(defs: &mut Defs) -> String;
+}
+pub type Defs = Vec<(String, String)>;
+fn nlab(s: &str) -> String {
+    format!("n{}", hex::encode(s.as_bytes()))
+}
+/// a named Rust type: its body is computed once, references to it are `(ref <hex name>)`
+fn named_def<T>(defs: &mut Defs, body: fn(&mut Defs) -> String) -> String {
+    let key = hex::encode(std::any::type_name::<T>().as_bytes());
+    if !defs.iter().any(|d| d.0 == key) {
+        defs.push((key.clone(), String::new()));
+        let b = body(defs);
+        if let Some(d) = defs.iter_mut().find(|d| d.0 == key) {
+            d.1 = b;
+        }
+    }
+    format!("(ref {key})")
+}
+pub fn rust_desc<T: Corp>() -> String {
+    let mut defs: Defs = vec![];
+    let t = T::rdesc(&mut defs);
+    format!("(rust (defs{}) {t})", defs.iter().map(|(k, b)| format!(" ({k} {b})")).collect::<String>())
 }
 
 fn named(s: &str) -> Label {
@@ -47,8 +71,11 @@ fn tuple(vs: Vec<IDLValue>) -> IDLValue {
 }
 
 macro_rules! prim {
-    ($t:ty, $arb:expr, $idl:expr) => {
+    ($t:ty, $arb:expr, $idl:expr, $desc:expr) => {
         impl Corp for $t {
+            fn rdesc(_defs: &mut Defs) -> String {
+                $desc.to_string()
+            }
             fn arb(r: &mut Rng, _d: u32) -> Self {
                 let f: fn(&mut Rng) -> $t = $arb;
                 f(r)
@@ -60,8 +87,11 @@ macro_rules! prim {
         }
     };
 }
-prim!(bool, |r| r.chance(1, 2), |v| IDLValue::Bool(*v));
+prim!(bool, |r| r.chance(1, 2), |v| IDLValue::Bool(*v), "bool");
 impl Corp for u8 {
+    fn rdesc(_d: &mut Defs) -> String {
+        "nat8".into()
+    }
     fn arb(r: &mut Rng, _d: u32) -> Self {
         r.next() as u8
     }
@@ -72,9 +102,12 @@ impl Corp for u8 {
         1
     }
 }
-prim!(u16, |r| r.next() as u16, |v| IDLValue::Nat16(*v));
-prim!(u32, |r| r.next() as u32, |v| IDLValue::Nat32(*v));
+prim!(u16, |r| r.next() as u16, |v| IDLValue::Nat16(*v), "nat16");
+prim!(u32, |r| r.next() as u32, |v| IDLValue::Nat32(*v), "nat32");
 impl Corp for u64 {
+    fn rdesc(_d: &mut Defs) -> String {
+        "nat64".into()
+    }
     fn arb(r: &mut Rng, _d: u32) -> Self {
         edge64(r)
     }
@@ -85,13 +118,16 @@ impl Corp for u64 {
         8
     }
 }
-prim!(i8, |r| r.next() as i8, |v| IDLValue::Int8(*v));
-prim!(i16, |r| r.next() as i16, |v| IDLValue::Int16(*v));
-prim!(i32, |r| r.next() as i32, |v| IDLValue::Int32(*v));
-prim!(i64, |r| edge64(r) as i64, |v| IDLValue::Int64(*v));
-prim!(f32, |r| f32::from_bits(r.next() as u32), |v| IDLValue::Float32(*v));
-prim!(f64, |r| f64::from_bits(r.next()), |v| IDLValue::Float64(*v));
+prim!(i8, |r| r.next() as i8, |v| IDLValue::Int8(*v), "int8");
+prim!(i16, |r| r.next() as i16, |v| IDLValue::Int16(*v), "int16");
+prim!(i32, |r| r.next() as i32, |v| IDLValue::Int32(*v), "int32");
+prim!(i64, |r| edge64(r) as i64, |v| IDLValue::Int64(*v), "int64");
+prim!(f32, |r| f32::from_bits(r.next() as u32), |v| IDLValue::Float32(*v), "float32");
+prim!(f64, |r| f64::from_bits(r.next()), |v| IDLValue::Float64(*v), "float64");
 impl Corp for String {
+    fn rdesc(_d: &mut Defs) -> String {
+        "text".into()
+    }
     fn arb(r: &mut Rng, _d: u32) -> Self {
         crate::gen::text(r)
     }
@@ -105,10 +141,10 @@ impl Corp for String {
         }
     }
 }
-prim!((), |_r| (), |_v| IDLValue::Null);
-prim!(Reserved, |_r| Reserved, |_v| IDLValue::Reserved);
-prim!(Principal, |r| crate::gen::principal(r), |v| IDLValue::Principal(*v));
-prim!(ByteBuf, |r| { let n = r.below(5) as usize; ByteBuf::from(r.bytes(n)) }, |v| IDLValue::Blob(v.to_vec()));
+prim!((), |_r| (), |_v| IDLValue::Null, "null");
+prim!(Reserved, |_r| Reserved, |_v| IDLValue::Reserved, "Reserved");
+prim!(Principal, |r| crate::gen::principal(r), |v| IDLValue::Principal(*v), "Principal");
+prim!(ByteBuf, |r| { let n = r.below(5) as usize; ByteBuf::from(r.bytes(n)) }, |v| IDLValue::Blob(v.to_vec()), "ByteBuf");
 
 fn edge64(r: &mut Rng) -> u64 {
     match r.below(6) {
@@ -132,6 +168,9 @@ fn bignat(r: &mut Rng) -> num_bigint::BigUint {
     }
 }
 impl Corp for Nat {
+    fn rdesc(_d: &mut Defs) -> String {
+        "Nat".into()
+    }
     fn arb(r: &mut Rng, _d: u32) -> Self {
         Nat(bignat(r))
     }
@@ -140,6 +179,9 @@ impl Corp for Nat {
     }
 }
 impl Corp for Int {
+    fn rdesc(_d: &mut Defs) -> String {
+        "Int".into()
+    }
     fn arb(r: &mut Rng, _d: u32) -> Self {
         let m = num_bigint::BigInt::from(bignat(r));
         Int(if r.chance(1, 2) { -m } else { m })
@@ -149,6 +191,9 @@ impl Corp for Int {
     }
 }
 impl Corp for u128 {
+    fn rdesc(_d: &mut Defs) -> String {
+        "u128".into()
+    }
     fn arb(r: &mut Rng, _d: u32) -> Self {
         match r.below(4) {
             0 => u128::MAX,
@@ -165,6 +210,9 @@ impl Corp for u128 {
     }
 }
 impl Corp for i128 {
+    fn rdesc(_d: &mut Defs) -> String {
+        "i128".into()
+    }
     fn arb(r: &mut Rng, _d: u32) -> Self {
         match r.below(4) {
             0 => i128::MAX,
@@ -186,6 +234,9 @@ impl Corp for i128 {
 }
 
 impl<T: Corp> Corp for Option<T> {
+    fn rdesc(d: &mut Defs) -> String {
+        format!("(opt {})", T::rdesc(d))
+    }
     fn arb(r: &mut Rng, d: u32) -> Self {
         if d == 0 || r.chance(1, 3) {
             None
@@ -213,6 +264,9 @@ impl<T: Corp> Corp for Option<T> {
     }
 }
 impl<T: Corp> Corp for Box<T> {
+    fn rdesc(d: &mut Defs) -> String {
+        T::rdesc(d)
+    }
     fn arb(r: &mut Rng, d: u32) -> Self {
         Box::new(T::arb(r, d))
     }
@@ -243,6 +297,9 @@ fn elems(v: &IDLValue) -> Vec<IDLValue> {
     }
 }
 impl<T: Corp> Corp for Vec<T> {
+    fn rdesc(d: &mut Defs) -> String {
+        format!("(seq {})", T::rdesc(d))
+    }
     fn arb(r: &mut Rng, d: u32) -> Self {
         let n = if d == 0 { 0 } else { r.below(4) };
         (0..n).map(|_| T::arb(r, d - 1)).collect()
@@ -258,6 +315,9 @@ impl<T: Corp> Corp for Vec<T> {
     }
 }
 impl<T: Corp + Ord> Corp for BTreeSet<T> {
+    fn rdesc(d: &mut Defs) -> String {
+        format!("(seq {})", T::rdesc(d))
+    }
     fn arb(r: &mut Rng, d: u32) -> Self {
         let n = if d == 0 { 0 } else { r.below(4) };
         (0..n).map(|_| T::arb(r, d - 1)).collect()
@@ -277,6 +337,9 @@ impl<T: Corp + Ord> Corp for BTreeSet<T> {
     }
 }
 impl<T: Corp> Corp for [T; 2] {
+    fn rdesc(d: &mut Defs) -> String {
+        format!("(array 2 {})", T::rdesc(d))
+    }
     fn arb(r: &mut Rng, d: u32) -> Self {
         std::array::from_fn(|_| T::arb(r, d.saturating_sub(1)))
     }
@@ -310,6 +373,9 @@ fn map_no_dups<K: Corp, V: Corp>(v: &IDLValue) -> bool {
     set.len() == keys.len() && pair_ok::<K, V>(v, K::no_dups, V::no_dups)
 }
 impl<K: Corp + Ord, V: Corp> Corp for BTreeMap<K, V> {
+    fn rdesc(d: &mut Defs) -> String {
+        format!("(map {} {})", K::rdesc(d), V::rdesc(d))
+    }
     fn arb(r: &mut Rng, d: u32) -> Self {
         let n = if d == 0 { 0 } else { r.below(4) };
         (0..n).map(|_| (K::arb(r, d - 1), V::arb(r, d - 1))).collect()
@@ -325,6 +391,9 @@ impl<K: Corp + Ord, V: Corp> Corp for BTreeMap<K, V> {
     }
 }
 impl<K: Corp + Eq + std::hash::Hash + Ord, V: Corp> Corp for HashMap<K, V> {
+    fn rdesc(d: &mut Defs) -> String {
+        format!("(map {} {})", K::rdesc(d), V::rdesc(d))
+    }
     const HASHY: bool = true;
     fn arb(r: &mut Rng, d: u32) -> Self {
         let n = if d == 0 { 0 } else { r.below(3) };
@@ -346,6 +415,7 @@ impl<K: Corp + Eq + std::hash::Hash + Ord, V: Corp> Corp for HashMap<K, V> {
 macro_rules! tup {
     ($($n:ident : $i:tt),+) => {
         impl<$($n: Corp),+> Corp for ($($n,)+) {
+            fn rdesc(d: &mut Defs) -> String { let mut s = String::from("(tuple"); $( s.push(' '); s.push_str(&$n::rdesc(d)); )+ s.push(')'); s }
             fn arb(r: &mut Rng, d: u32) -> Self { ($($n::arb(r, d.saturating_sub(1)),)+) }
             fn idl(&self) -> IDLValue { tuple(vec![$(self.$i.idl()),+]) }
             fn host_ok(v: &IDLValue) -> bool {
@@ -362,6 +432,9 @@ tup!(A: 0, B: 1);
 tup!(A: 0, B: 1, C: 2);
 
 impl<T: Corp, E: Corp> Corp for Result<T, E> {
+    fn rdesc(d: &mut Defs) -> String {
+        format!("(enum ({} newtype {}) ({} newtype {}))", nlab("Ok"), T::rdesc(d), nlab("Err"), E::rdesc(d))
+    }
     fn arb(r: &mut Rng, d: u32) -> Self {
         if r.chance(1, 2) {
             Ok(T::arb(r, d.saturating_sub(1)))
@@ -382,6 +455,12 @@ use candid::types::bounded_vec::{BoundedVec, UNBOUNDED};
 macro_rules! bounded {
     ($l:expr, $s:expr, $e:expr, $t:ty) => {
         impl Corp for BoundedVec<{ $l }, { $s }, { $e }, $t> {
+            fn rdesc(d: &mut Defs) -> String {
+                const L: usize = $l;
+                const S: usize = $s;
+                const E: usize = $e;
+                format!("(bounded {L} {S} {E} {})", <$t>::rdesc(d))
+            }
             fn arb(r: &mut Rng, d: u32) -> Self {
                 const L: usize = $l;
                 const S: usize = $s;
@@ -437,6 +516,9 @@ pub struct Point {
     pub y: i32,
 }
 impl Corp for Point {
+    fn rdesc(d: &mut Defs) -> String {
+        named_def::<Self>(d, |_d| format!("(struct ({} field int32) ({} field int32))", nlab("x"), nlab("y")))
+    }
     fn arb(r: &mut Rng, d: u32) -> Self {
         Point { x: i32::arb(r, d), y: i32::arb(r, d) }
     }
@@ -457,6 +539,18 @@ pub struct Renamed {
     pub _underscore_: Int,
 }
 impl Corp for Renamed {
+    fn rdesc(d: &mut Defs) -> String {
+        named_def::<Self>(d, |_d| {
+            format!(
+                "(struct ({} field Nat) ({} field (opt text)) ({} field nat8) ({} field bool) ({} field Int))",
+                nlab("a b"),
+                nlab("🦀"),
+                nlab("type"),
+                nlab("1"),
+                nlab("_underscore_")
+            )
+        })
+    }
     fn arb(r: &mut Rng, d: u32) -> Self {
         Renamed {
             first: Nat::arb(r, d),
@@ -480,6 +574,9 @@ impl Corp for Renamed {
 #[derive(CandidType, Deserialize, Clone, Debug, PartialEq)]
 pub struct Wrap<T>(pub T);
 impl<T: Corp> Corp for Wrap<T> {
+    fn rdesc(d: &mut Defs) -> String {
+        format!("(newtype {})", T::rdesc(d))
+    }
     fn arb(r: &mut Rng, d: u32) -> Self {
         Wrap(T::arb(r, d))
     }
@@ -498,6 +595,9 @@ impl<T: Corp> Corp for Wrap<T> {
 #[derive(CandidType, Deserialize, Clone, Debug, PartialEq)]
 pub struct Pair<A, B>(pub A, pub B);
 impl<A: Corp, B: Corp> Corp for Pair<A, B> {
+    fn rdesc(d: &mut Defs) -> String {
+        format!("(tuple {} {})", A::rdesc(d), B::rdesc(d))
+    }
     fn arb(r: &mut Rng, d: u32) -> Self {
         Pair(A::arb(r, d.saturating_sub(1)), B::arb(r, d.saturating_sub(1)))
     }
@@ -519,6 +619,19 @@ pub struct Generic<T, U> {
     pub both: Option<Box<Generic<U, T>>>,
 }
 impl<T: Corp, U: Corp> Corp for Generic<T, U> {
+    fn rdesc(d: &mut Defs) -> String {
+        named_def::<Self>(d, |d| {
+            format!(
+                "(struct ({} field {}) ({} field (seq {})) ({} field (opt {})))",
+                nlab("left"),
+                T::rdesc(d),
+                nlab("right"),
+                U::rdesc(d),
+                nlab("both"),
+                Generic::<U, T>::rdesc(d)
+            )
+        })
+    }
     fn arb(r: &mut Rng, d: u32) -> Self {
         Generic {
             left: T::arb(r, d.saturating_sub(1)),
@@ -546,6 +659,23 @@ pub enum Shape {
     r#match,
 }
 impl Corp for Shape {
+    fn rdesc(d: &mut Defs) -> String {
+        named_def::<Self>(d, |d| {
+            format!(
+                "(enum ({} unit null) ({} newtype nat32) ({} struct (struct ({} field nat16) ({} field nat16))) ({} tuple (tuple (seq {}) bool)) ({} newtype (opt {})) ({} unit null))",
+                nlab("Dot"),
+                nlab("Circle"),
+                nlab("Rect"),
+                nlab("w"),
+                nlab("h"),
+                nlab("Poly"),
+                Point::rdesc(d),
+                nlab("re named"),
+                Shape::rdesc(d),
+                nlab("match")
+            )
+        })
+    }
     fn arb(r: &mut Rng, d: u32) -> Self {
         match r.below(if d == 0 { 3 } else { 6 }) {
             0 => Shape::Dot,
@@ -574,6 +704,9 @@ pub struct List {
     pub tail: Option<Box<List>>,
 }
 impl Corp for List {
+    fn rdesc(d: &mut Defs) -> String {
+        named_def::<Self>(d, |d| format!("(struct ({} field Int) ({} field (opt {})))", nlab("head"), nlab("tail"), List::rdesc(d)))
+    }
     fn arb(r: &mut Rng, d: u32) -> Self {
         List { head: Int::arb(r, d), tail: if d == 0 { None } else { Option::<Box<List>>::arb(r, d) } }
     }
@@ -594,6 +727,9 @@ pub enum Forest {
     Many(BTreeMap<String, Tree>),
 }
 impl Corp for Tree {
+    fn rdesc(d: &mut Defs) -> String {
+        named_def::<Self>(d, |d| format!("(struct ({} field text) ({} field (seq {})))", nlab("label"), nlab("children"), Forest::rdesc(d)))
+    }
     fn arb(r: &mut Rng, d: u32) -> Self {
         Tree { label: String::arb(r, d), children: if d == 0 { vec![] } else { Vec::<Forest>::arb(r, d.min(2)) } }
     }
@@ -611,6 +747,18 @@ impl Corp for Tree {
     }
 }
 impl Corp for Forest {
+    fn rdesc(d: &mut Defs) -> String {
+        named_def::<Self>(d, |d| {
+            format!(
+                "(enum ({} unit null) ({} newtype {}) ({} newtype (map text {})))",
+                nlab("Leaf"),
+                nlab("Node"),
+                Tree::rdesc(d),
+                nlab("Many"),
+                Tree::rdesc(d)
+            )
+        })
+    }
     fn arb(r: &mut Rng, d: u32) -> Self {
         match r.below(if d == 0 { 1 } else { 3 }) {
             0 => Forest::Leaf,
@@ -641,6 +789,9 @@ candid::define_service!(pub Counter : {
     "cb" : Callback::ty()
 });
 impl Corp for Callback {
+    fn rdesc(_d: &mut Defs) -> String {
+        "(newtype Func)".into()
+    }
     fn arb(r: &mut Rng, _d: u32) -> Self {
         Callback::new(crate::gen::principal(r), r.pick(&["get", "m", ""]).to_string())
     }
@@ -649,6 +800,9 @@ impl Corp for Callback {
     }
 }
 impl Corp for Counter {
+    fn rdesc(_d: &mut Defs) -> String {
+        "(newtype Service)".into()
+    }
     fn arb(r: &mut Rng, _d: u32) -> Self {
         Counter::new(crate::gen::principal(r))
     }
@@ -675,6 +829,10 @@ pub struct Entry {
     pub no_dups: fn(&IDLValue) -> bool,
     /// touch the type memo only
     pub touch: fn(),
+    /// the Rust type as a term of the native mirror's grammar
+    pub rdesc: fn() -> String,
+    /// `T::ty()` with its knots (what `get_value::<T>` expects), for the native mirror
+    pub raw_ty: fn() -> (candid::TypeEnv, candid::types::Type),
 }
 
 fn rt<T: Corp>(r: &mut Rng) -> Result<(Vec<u8>, IDLValue), String> {
@@ -720,6 +878,37 @@ fn tyc<T: Corp>() -> (candid::TypeEnv, candid::types::Type) {
     let t = c.add::<T>();
     (c.env, t)
 }
+/// `T::ty()` as the native decoder sees it: non-recursive types inline, recursive ones as knots, whose definitions
+/// (in the derive macro's thread-local environment) are collected under the knot's name
+fn raw<T: Corp>() -> (candid::TypeEnv, candid::types::Type) {
+    let t = T::ty();
+    let mut env = candid::TypeEnv::new();
+    collect_knots(&t, &mut env);
+    (env, t)
+}
+fn collect_knots(t: &candid::types::Type, env: &mut candid::TypeEnv) {
+    use candid::types::internal::{find_type, TypeInner::*};
+    match t.as_ref() {
+        Knot(id) => {
+            let name = format!("{id}");
+            if !env.0.contains_key(&name) {
+                if let Some(d) = find_type(id) {
+                    env.0.insert(name, d.clone());
+                    collect_knots(&d, env);
+                }
+            }
+        }
+        Opt(t) | Vec(t) => collect_knots(t, env),
+        Record(fs) | Variant(fs) => fs.iter().for_each(|f| collect_knots(&f.ty, env)),
+        Func(f) => f.args.iter().chain(f.rets.iter()).for_each(|t| collect_knots(t, env)),
+        Service(ms) => ms.iter().for_each(|(_, t)| collect_knots(t, env)),
+        Class(args, t) => {
+            args.iter().for_each(|t| collect_knots(t, env));
+            collect_knots(t, env)
+        }
+        _ => {}
+    }
+}
 fn touch<T: Corp>() {
     let _ = T::ty();
 }
@@ -736,6 +925,8 @@ macro_rules! entry {
             host_ok: <$t as Corp>::host_ok,
             no_dups: <$t as Corp>::no_dups,
             touch: touch::<$t>,
+            rdesc: rust_desc::<$t>,
+            raw_ty: raw::<$t>,
         }
     };
 }
